@@ -43,6 +43,13 @@ def cases(draw):
                 ops.append(["mv", tx, ty, None, 0])
                 ops.append(["home", draw(st.sampled_from(["", "", " X", " Y", " Z", " X Y", " X0 Y0 Z0"]))])
             continue
+        if k == "e" and draw(st.integers(0, 60)) == 0:
+            # a long stretch of distinct moves in the free corner (hundreds of commands), after which the path goes on
+            ops.append(["raster", draw(st.sampled_from([300, 560, 1100]))])
+            for o in list(ops[:8]):
+                if o[0] == "mv":
+                    ops.append(list(o))        # ... and comes back to its first destinations
+            continue
         if k == "arc":
             # I/J arc of 1-3 quarter turns about a centre on the 0.5 mm grid (so the end point is a grid point too)
             di, dj = draw(st.integers(-12, 12)) * 0.5, draw(st.integers(-12, 12)) * 0.5
@@ -143,6 +150,11 @@ def render(case, variant):  # noqa: C901  pylint: disable=too-many-branches,too-
                 w += " E" + gen.fmt(e / u, nd)
             prog.append((idx, "G1" + w))
             x, y, z = nx, ny, nz
+        elif op[0] == "raster":
+            for n in range(op[1]):
+                nx, ny = 70.0 + 0.25 * (n % 80), 70.0 + 0.25 * (n // 80)
+                prog.append((idx if n == op[1] - 1 else None, "G1" + word("X", x + dx, nx + dx, shift[0]) + word("Y", y + dy, ny + dy, shift[1])))
+                x, y = nx, ny
         elif op[0] == "home":
             prog.append((idx, "G28" + op[1]))
             axes = [a for a in "XYZ" if a in op[1]] or ["X", "Y", "Z"]
